@@ -4,7 +4,10 @@ inquire / configure / store results and errors; selective switch.
 A case is one session: a peer (the CiA 305 reference slave of harness/ref/lss_slave.py in a given initial
 state, or a scripted peer for fault sequences) and a list of public LssMaster calls.  The observation is,
 per call: the result (or exception class), every frame seen on the bus during the call (who sent it, COB-ID,
-data) and the peer's state afterwards.  Long fast-scan logs are compared with the model through a 61-bit
+data), the peer's state afterwards and whether the call left the master's public settings (RESPONSE_TIMEOUT and
+every other public class / instance attribute of LssMaster) as it found them.  Time is virtual (shims for
+canopen.lss.queue and canopen.lss.time): silence costs nothing and "delay_ms" lets the peer answer later; two
+"clock": "real" sessions use real threads and the real queue.  Long fast-scan logs are compared with the model through a 61-bit
 polynomial hash ("trace": "hash"); the oracle always works on the full log.
 """
 import logging, struct
@@ -24,8 +27,10 @@ RULE = ("case = one session (peer, list of LssMaster calls); non-trivial = a ses
 EXHAUSTIVE = {"quick": False, "thorough": False}
 EXPLANATION = ("the 2^128 identities are covered by the theorem, not by enumeration; the correspondence runs every "
                "single-bit identity, all node ids / bit-timing indexes / error codes 0..255 and seeded random sessions")
-TRUSTED = ["modelled, not verified: queue.Queue blocking get with time-out (the harness delivers replies inline and sets "
-           "RESPONSE_TIMEOUT = 0, so 'no reply' is an empty queue), time.sleep between frames (replaced by a no-op shim), "
+TRUSTED = ["modelled, not verified: queue.Queue blocking get with time-out (the harness replaces canopen.lss.queue by a "
+           "virtual-time queue: replies are delivered inline or after a virtual delay, an empty queue advances the virtual "
+           "clock by the time-out and raises Empty; RESPONSE_TIMEOUT is left as it is), time.sleep between frames (advances "
+           "the virtual clock only), "
            "struct.pack/unpack_from formats '<BIBBB' '<I' '<H' '<B' '<BB' '<BI' (modelled in Gallina, tied by correspondence)",
            "harness/ref/lss_slave.py, the CiA 305 reference slave (twin of Model/RefLssSlave.v, tied by the per-call state "
            "comparison of the correspondence)"]
@@ -39,43 +44,147 @@ _full = {}
 
 
 # ------------------------------------------------------------------ running the implementation
-class _NoSleep:
-    @staticmethod
-    def sleep(t): pass
-    @staticmethod
-    def time():
-        import time
-        return time.time()
-    @staticmethod
-    def monotonic():
-        import time
-        return time.monotonic()
+# Time is virtual: canopen.lss.queue and canopen.lss.time are replaced by shims (no source change).  A get() on an
+# empty queue does not block; it advances the virtual clock of the bus by the time-out it was given (delivering the
+# peer's delayed replies that fall due on the way) and raises queue.Empty.  So the harness never has to touch
+# RESPONSE_TIMEOUT (the class default stays unless the case sets "timeout_ms"), silence costs no real time, and the
+# time-out a call really used is observable.
+import collections, queue as _realqueue, time as _realtime
 
 
-def _make_net(peer):
-    import canopen, canopen.lss
+class _VQueue:
+    def __init__(self, maxsize=0): self.items = collections.deque()
+    def empty(self): return not self.items
+    def qsize(self): return len(self.items)
+    def put(self, x, block=True, timeout=None): self.items.append(x)
+    def put_nowait(self, x): self.items.append(x)
+    def get_nowait(self): return self.get(False)
+    def get(self, block=True, timeout=None):
+        if self.items:
+            return self.items.popleft()
+        if not block:
+            raise _realqueue.Empty
+        return _Shim.net.wait(timeout, self)
+
+
+class _VQueueModule:
+    Queue = _VQueue
+    Empty = _realqueue.Empty
+    Full = _realqueue.Full
+
+
+class _Shim:
+    """replacement for the `time` module inside canopen.lss: sleeping only advances the virtual clock"""
+    net = None
+    @staticmethod
+    def sleep(t):
+        if _Shim.net is not None and not _Shim.net.real:
+            _Shim.net.advance(int(round(t * 1000)))
+    time = staticmethod(_realtime.time)
+    monotonic = staticmethod(_realtime.monotonic)
+    perf_counter = staticmethod(_realtime.perf_counter)
+
+
+def _make_net(peer, delays=None, real=False):
+    import canopen, canopen.lss, threading
     logging.disable(logging.CRITICAL)
-    canopen.lss.time = _NoSleep
+    canopen.lss.time = _Shim
+    canopen.lss.queue = _realqueue if real else _VQueueModule
+    delays = {int(k): int(v) for k, v in (delays or {}).items()}
 
     class Net(canopen.Network):
         def __init__(self):
             super().__init__()
-            self.log = []
+            self.log = []           # every frame on the bus: bytes([who, id_hi, id_lo]) + data
+            self.now = 0            # virtual clock, ms
+            self.pending = []       # (due, seq, cob-id, data): replies the peer sends later
+            self.sched = []         # (index in log of the request, delay ms, cob-id, data)
+            self.waits = []         # time-outs (ms) of the waits that ended in silence
+            self.real = real
+            self.t_req = self.t_reply = None
 
         def put(self, who, can_id, data, remote=False):
             cid = int(can_id) | (0x8000 if remote else 0)
             self.log.append(bytes([who, (cid >> 8) & 0xFF, cid & 0xFF]) + bytes(data))
 
+        def deliver(self, cid, rd):
+            self.put(1, cid, rd)
+            self.notify(cid, bytearray(rd), 0.0)
+
         def send_message(self, can_id, data, remote=False):
             d = bytes(data)
             self.put(0, can_id, d, remote)
+            at = len(self.log) - 1
+            delay = delays.get(d[0], 0) if d else 0
             for cid, rd in peer.on_frame(can_id, d):
-                self.put(1, cid, rd)
-                self.notify(cid, bytearray(rd), 0.0)
+                if not delay:
+                    self.deliver(cid, rd)
+                    continue
+                self.sched.append((at, delay, cid, bytes(rd)))
+                if real:
+                    self.t_req = _realtime.monotonic()
+                    def late(cid=cid, rd=rd):
+                        self.t_reply = _realtime.monotonic()
+                        self.deliver(cid, rd)
+                    t = threading.Timer(delay / 1000.0, late)
+                    t.daemon = True
+                    t.start()
+                else:
+                    self.pending.append((self.now + delay, len(self.sched), cid, bytes(rd)))
+
+        def advance(self, ms, q=None):
+            """virtual time passes; returns True as soon as q has an item"""
+            deadline = self.now + ms
+            while True:
+                due = sorted(x for x in self.pending if x[0] <= deadline)
+                if not due:
+                    break
+                self.pending.remove(due[0])
+                self.now = due[0][0]
+                self.deliver(due[0][2], due[0][3])
+                if q is not None and q.items:
+                    return True
+            self.now = deadline
+            return False
+
+        def wait(self, timeout, q):
+            if timeout is None:                       # would block for ever
+                if self.advance(10 ** 9, q):
+                    return q.items.popleft()
+                raise _realqueue.Empty
+            ms = int(round(timeout * 1000))
+            if self.advance(max(ms, 0), q):
+                return q.items.popleft()
+            self.waits.append(ms)
+            raise _realqueue.Empty
 
     net = Net()
-    net.lss.RESPONSE_TIMEOUT = 0
+    _Shim.net = net
+    if not real and not isinstance(net.lss.responses, _VQueue):
+        net.lss.RESPONSE_TIMEOUT = 0                  # shim not effective (queue imported differently): old set-up
     return net
+
+
+def settings(lss):
+    """the master's public configuration: every public non-callable class / instance attribute except its wiring"""
+    skip = ("network", "responses")
+    def canon(v):
+        return v if isinstance(v, (bool, int, float, str)) or v is None else repr(v)
+    out = {}
+    for n in dir(lss):
+        if n.startswith("_") or n in skip:
+            continue
+        try:
+            v = getattr(lss, n)
+        except Exception as e:
+            v = f"<{type(e).__name__}>"
+        if callable(v):
+            continue
+        out[n] = canon(v)
+        cv = type(lss).__dict__.get(n, "<none>")
+        if not callable(cv):
+            out["class." + n] = canon(cv)
+    return out
 
 
 def make_peer(p):
@@ -114,15 +223,38 @@ def canon_result(r):
 
 
 def run_session(c):
-    """full observation: per call [result, [bus entries as bytes], peer state]"""
+    """full observation: per call [result, [bus entries as bytes], peer state, settings unchanged?] and, for the oracle,
+    per call the settings before / after, the documented time-out at the start, scheduled (delayed) replies, waits"""
     peer = make_peer(c["peer"])
-    net = _make_net(peer)
-    out = []
+    real = c.get("clock") == "real"
+    net = _make_net(peer, c.get("delay_ms"), real)
+    if "timeout_ms" in c:
+        net.lss.RESPONSE_TIMEOUT = c["timeout_ms"] / 1000.0
+    out, extra = [], []
+    tmo = settings(net.lss).get("RESPONSE_TIMEOUT")     # the time-out the session starts with is the documented one
+    tmo_ms = int(round(tmo * 1000)) if isinstance(tmo, (int, float)) and not isinstance(tmo, bool) else None
     for op in c["ops"]:
         start = len(net.log)
+        nsched, nwait = len(net.sched), len(net.waits)
+        before = settings(net.lss)
+        net.t_req = net.t_reply = None
         r = guarded(lambda: canon_result(_call(net, op)))
-        out.append([r, list(net.log[start:]), peer.state()])
-    return out
+        if real and net.t_req is not None:
+            dl = _realtime.monotonic() + 3.0
+            while net.t_reply is None and _realtime.monotonic() < dl:      # let the late reply arrive
+                _realtime.sleep(0.01)
+        after = settings(net.lss)
+        in_time = None
+        if real and net.t_req is not None and net.t_reply is not None and tmo_ms is not None:
+            in_time = (net.t_reply - net.t_req) * 1000.0 < 0.8 * tmo_ms
+        row = [r, list(net.log[start:]), peer.state(), before == after]
+        if real:
+            row.append(in_time)
+        out.append(row)
+        extra.append(dict(before=before, after=after, timeout_ms=tmo_ms, in_time=in_time,
+                          sched=[(at - start, d, cid, data) for at, d, cid, data in net.sched[nsched:]],
+                          waits=list(net.waits[nwait:])))
+    return out, extra
 
 
 def bus_hash(entries):
@@ -139,13 +271,17 @@ def _key(c):
     return json.dumps(c, sort_keys=True)
 
 
-def impl(c):
-    full = run_session(c)
-    _full.clear()
-    _full[_key(c)] = full
+def _compared(c, full):
     if c.get("trace") == "hash":
-        return [[r, bus_hash(b), s] for r, b, s in full]
+        return [[r, bus_hash(b), st, ok] for r, b, st, ok in full]
     return full
+
+
+def impl(c):
+    full, extra = run_session(c)
+    _full.clear()
+    _full[_key(c)] = (full, extra)
+    return _compared(c, full)
 
 
 # ------------------------------------------------------------------ oracle (CiA 305, independent of model and library)
@@ -177,8 +313,21 @@ def expected_requests(op):
     return None
 
 
-def _answer(bus):
-    """the slave's answer to the (last) request of the call: first frame on 0x7E4 after the library's last frame"""
+def _answer(bus, ex=None, real=False):
+    """the slave's answer to the (last) request of the call: first frame on 0x7E4 after the library's last frame;
+    a reply the peer sends later counts iff it is sent inside the time-out the master had when the session began"""
+    if ex is not None and ex["sched"]:
+        mine = [(d, data) for at, d, cid, data in ex["sched"] if cid == SLAVE]
+        if not mine or ex["timeout_ms"] is None:
+            return "skip", True
+        d, data = mine[0]
+        if real:
+            return (data, True) if ex["in_time"] else ("skip", True)
+        if d < ex["timeout_ms"]:
+            return data, True
+        return (None, True) if d > ex["timeout_ms"] else ("skip", True)
+    if real:
+        return "skip", True
     last = max((i for i, e in enumerate(bus) if e[0] == 0), default=None)
     if last is None:
         return None, False
@@ -189,12 +338,13 @@ def _answer(bus):
 
 
 def oracle(c, o):
-    full = _full.get(_key(c))
-    if full is None:
-        full = run_session(c)
-    if c.get("trace") == "hash":
-        if [[r, bus_hash(b), s] for r, b, s in full] != o:
-            return ("nondeterministic", "two runs of the same session gave different observations")
+    cached = _full.get(_key(c))
+    if cached is None:
+        cached = run_session(c)
+    full, extra = cached
+    real = c.get("clock") == "real"
+    if not real and _compared(c, full) != o:
+        return ("nondeterministic", "two runs of the same session gave different observations")
     peer = c["peer"]
     is_slave = peer["type"] == "slave"
     state = None
@@ -203,7 +353,8 @@ def oracle(c, o):
         d.update({k: peer[k] for k in d if k in peer})
         state = [d[k] for k in ("mode", "node", "pos", "sel", "idn", "bt", "delay", "st_node", "st_bt")]
     never_replies = (not is_slave) and all(len(step) == 0 for step in peer["script"])
-    for i, (op, (res, bus, after)) in enumerate(zip(c["ops"], full)):
+    for i, (op, row, ex) in enumerate(zip(c["ops"], full, extra)):
+        res, bus, after = row[0], row[1], row[2]
         k = op[0]
         where = f"call {i} {op!r}"
         sent = [e for e in bus if e[0] == 0]
@@ -233,10 +384,12 @@ def oracle(c, o):
             elif never_replies and res != [False, None]:
                 return ("fast_scan_phantom", f"{where}: no slave present, fast_scan returned {res!r}")
         elif k in ("cfg_node", "cfg_bit", "store", "inq_node", "inq_addr") and exp is not None:
-            ans, was_sent = _answer(bus)
+            ans, was_sent = _answer(bus, ex, real)
             cs = exp[0][0]
             want = "skip"
-            if ans is None:
+            if ans == "skip":
+                pass
+            elif ans is None:
                 want = Err(E_LSS)
             elif k in ("cfg_node", "cfg_bit", "store") and len(ans) >= 2:
                 want = Err(E_LSS) if (ans[0] != cs or ans[1] != 0) else None
@@ -245,15 +398,26 @@ def oracle(c, o):
             elif k == "inq_addr" and len(ans) >= 5:
                 want = Err(E_LSS) if ans[0] != cs else int.from_bytes(ans[1:5], "little")
             if want != "skip" and (res != want or type(res) is not type(want)):
-                return ("service_result_wrong", f"{where}: slave answered {ans.hex() if ans is not None else None}, "
+                late = [d for _, d, _, _ in ex["sched"]]
+                note = f" ({late[0]} ms after the request, RESPONSE_TIMEOUT was {ex['timeout_ms']} ms)" if late else ""
+                return ("answer_within_timeout_lost" if late and isinstance(res, Err) and not isinstance(want, Err)
+                        else "service_result_wrong",
+                        f"{where}: slave answered {ans.hex() if ans is not None else None}{note}, "
                         f"call gave {res!r}, expected {want!r}")
         elif k == "selective" and exp is not None:
-            ans, _ = _answer(bus)
+            ans, _ = _answer(bus, ex, real)
+            if ans == "skip":
+                ans = None
             if is_slave and state[0] == 0 and list(op[1:5]) == list(peer["ident"]):
                 if res is not True or after[0] != 1:
                     return ("selective_not_confirmed", f"{where}: result {res!r}, slave state {after[0]}")
             if ans is not None and len(ans) >= 1 and ans[0] == 0x44 and res is not True:
                 return ("selective_not_confirmed", f"{where}: slave confirmed with {ans.hex()}, result {res!r}")
+        # the call must leave the master's public configuration as it found it
+        if ex["before"] != ex["after"]:
+            diff = {n: (ex["before"].get(n, "<absent>"), ex["after"].get(n, "<absent>"))
+                    for n in sorted(set(ex["before"]) | set(ex["after"])) if ex["before"].get(n, "<absent>") != ex["after"].get(n, "<absent>")}
+            return ("master_settings_changed", f"{where}: " + ", ".join(f"{n}: {a!r} -> {b!r}" for n, (a, b) in diff.items()))
         if is_slave:
             state = after
     return None
@@ -497,11 +661,47 @@ def gen_cases(rng, tier):
             else: steps.append([rep(rng.choice((0x11, 0x13, 0x17, 0x5E, 0x5A, 0x5B, 0x5C, 0x5D, 0x44, 0x4F)), rng.choice((0, 0, 1, rng.randrange(256))),
                                     rng.randrange(256), rng.randrange(256), rng.randrange(256))] * rng.choice((1, 1, 1, 2)))
         cases.append(dict(kind="session_script", peer=script(steps), ops=ops))
+    # ---- the harness' own RESPONSE_TIMEOUT on some modelled sessions (time is virtual, so any value is free)
+    for c in cases:
+        if c["kind"] in ("session", "selective", "fast_scan") and rng.random() < 0.3:
+            c["timeout_ms"] = rng.choice((50, 250, 2000))
+    # ---- replies that take time (virtual clock, oracle only): an answer sent inside the time-out the master had
+    #      when the call began must be returned - also after a fast scan with unanswered probes
+    def delayed(peer, ops, delay, **kw):
+        return dict(kind="delayed", peer=peer, ops=ops, delay_ms=delay, model=False, **kw)
+    idt = [2, 0, 0, 1]
+    cases.append(delayed(slave(idt), [["fast_scan"], ["cfg_node", 0x20], ["inq_node"], ["store"]], {"23": 250}))
+    cases.append(delayed(slave(idt, mode=1), [["fast_scan"], ["store"], ["inq_node"]], {"23": 250}))
+    cases.append(delayed(slave(idt), [["global", 1], ["store"], ["inq_node"]], {"23": 250}))
+    cases.append(delayed(slave(idt, mode=1, node=9), [["store"], ["inq_node"]], {"23": 700}))
+    calls = {0x11: ["cfg_node", 0x21], 0x13: ["cfg_bit", 2], 0x17: ["store"], 0x5E: ["inq_node"], 0x5A: ["inq_addr", 0x5A],
+             0x5D: ["inq_addr", 0x5D]}
+    for _ in range({"quick": 40, "thorough": 400, "search": 80}[tier]):
+        tmo = rng.choice((None, None, 50, 300, 2000))
+        T = tmo or 500
+        cs = rng.choice(sorted(calls))
+        d = rng.choice((max(1, T // 10), T // 2, T - 1, T + 1, 2 * T))
+        ident = rand_ident(rng)
+        pre = rng.choice(([["global", 1]], [["fast_scan"]], [["fast_scan"], ["global", 0], ["fast_scan"], ["global", 1]],
+                          [["selective"] + ident]))
+        c = delayed(slave(ident), pre + [calls[cs]], {str(cs): d})
+        if tmo is not None:
+            c["timeout_ms"] = tmo
+        cases.append(c)
+    # ---- two real-clock sessions (real queue.Queue, real threads; oracle only): the slave acknowledges 0.2 s after the
+    #      request, well inside the untouched RESPONSE_TIMEOUT, once after a successful and once after a failed fast scan
+    if tier in ("quick", "thorough", "search"):
+        cases.append(dict(kind="realclock", clock="real", model=False, peer=slave(idt),
+                          ops=[["fast_scan"], ["cfg_node", 0x20], ["store"]], delay_ms={"23": 200}))
+        cases.append(dict(kind="realclock", clock="real", model=False, peer=slave(idt, mode=1, node=7),
+                          ops=[["fast_scan"], ["inq_node"]], delay_ms={"94": 200}))
     rng.shuffle(cases)          # spread the long cases evenly over the Coq case files
     return cases
 
 
 def shrink(c):
+    if c.get("clock") == "real":
+        return
     ops = c["ops"]
     for i in range(len(ops)):
         if len(ops) > 1:
